@@ -177,6 +177,7 @@ def run(ctx):
 
     step = 40
     first_sample = []
+    live = {1: [0, 0], 2: [0, 0]}         # fresh calls / fresh calls that rewrote something, per object kind
 
     def hist_chunk(k):
         chunk = cases[k:k + step]
@@ -187,6 +188,10 @@ def run(ctx):
         evs = vlib.read_ndjson(op)
         if k == 0:
             first_sample.append(evs[1:4])
+        for e in evs:
+            if e["ev"] == "fresh":
+                live[e["obj"]][0] += 1
+                live[e["obj"]][1] += 1 if e.get("chg") else 0
         _validate_all(ctx, evs, "ShaperSafetyTrace: histories on built tables %d" % k, rerun_history)
         os.remove(op)
 
@@ -275,6 +280,10 @@ def run(ctx):
     pool_ex.shutdown()
     if first_sample:
         ctx.sample({"recorded_events": first_sample[0]})
+    ctx.cov["fresh_calls_that_rewrote_the_input"] = {"gtab.Context": "%d of %d" % (live[1][1], live[1][0]),
+                                                     "sfnt.Layouter": "%d of %d" % (live[2][1], live[2][0])}
+    if live[1][1] * 10 < live[1][0] or live[2][1] * 10 < live[2][0]:
+        raise vlib.Infra("shaping objects are vacuous subjects: %s" % ctx.cov["fresh_calls_that_rewrote_the_input"])
     ctx.cov["mutants"] = dict(totals, ev="mutsummary")
     if totals["live"] * 4 < totals["accepted"] or not totals["live"] or totals["skipped"] * 4 > len(mcases):
         raise vlib.Infra("reader-delivered tables are vacuous: only %d of %d accepted mutants have lookups, %d of %d "
